@@ -410,6 +410,14 @@ def labelings(n: int, level: str) -> List[tuple]:
                     out.append(("", p, o))
         out.append(("x", ident, ident))
         out.append(("x", rev, rev))
+    elif level in ("ties", "ties1"):
+        # names that are pairwise different strings but EQUAL under plausible other sort keys (numeric value / natural order,
+        # case folding): a sort by such a key leaves their relative order to whatever order they arrived in
+        zeros = tuple("0" * i + "1" for i in ident)
+        out = [("", zeros, ident)]
+        if level == "ties":
+            cased = tuple(("n" if i % 2 == 0 else "N") + str(i // 2) for i in ident)
+            out.append(("", cased, rev))
     elif level in ("few", "mix", "eo"):
         rot = tuple((i + 1) % n for i in ident)
         # evens-then-odds: neighbours in BFS order get names far apart, so the name ranges of sibling loops / arms interleave
